@@ -11,8 +11,8 @@ mkdir -p $t/out; cp /verif/known_findings.json $t/out/
 bad=0
 for p in $props; do
   out=$(GCV_REPO=$t/tree GCV_VERIF=$t/out GCV_VARIANT=1 ${GCV_BIN:-/verif/bin/gcv} -p $p 2>&1)
-  if echo "$out" | grep -q "^VIOLATION"; then
-    bad=1; echo "ALARM $p on $(basename $(dirname $patch))/$(basename $patch):"; echo "$out" | grep -A1 "^VIOLATION" | grep "rule" | cut -c1-330 | head -4
+  if echo "$out" | grep -q "^VIOLATION\|^UNDECIDED"; then
+    bad=1; echo "ALARM $p on $(basename $(dirname $patch))/$(basename $patch):"; echo "$out" | grep -A1 "^VIOLATION\|^UNDECIDED" | grep "rule" | cut -c1-330 | head -4
   fi
 done
 [ $bad = 0 ] && echo "silent: $patch"
